@@ -170,6 +170,14 @@ def gen_scenarios(spec, rng, n):
             op = gen_op(spec, rng, fs, s, m, f"o{j}", client)
             rng.choice(actors)["ops"].append(op)
         actors = [a for a in actors if a["ops"]]
+        explicit = [o for a in actors for o in a["ops"] if isinstance((o.get("call") or {}).get("retry"), dict)]
+        if len(explicit) >= 2 and rng.random() < 0.5:
+            # the application defines ONE Retry object and passes it to several (possibly concurrent) calls
+            import copy
+            for o in explicit[1:]:
+                o["call"]["retry"] = copy.deepcopy(explicit[0]["call"]["retry"])
+            for o in explicit:
+                o["call"]["retry_shared"] = "r1"
         sc = {"client": client, "actors": actors, "jitter_default": 1.0}
         if threads and len(sc["actors"]) > 1:
             sc["threads"] = True
@@ -199,6 +207,8 @@ def gen_op(spec, rng, fs, s, m, oid, client):
              "multiplier": rng.choice([1.0, 2.0, 1.5]), "codes": sorted(rng.sample(engine.ALL_CODES, rng.randint(1, 3))),
              "timeout": rng.choice([None, 3.0, 15.0, 45.0])}
         call["retry"] = r
+        if rng.random() < 0.4:
+            call["retry_shared"] = "r1"        # one Retry object for every call of the scenario that asks for this policy
         eff_pol = r
         retry_T = r["timeout"]
     if rng.random() < 0.2:
